@@ -540,6 +540,10 @@ class SingleBase(Family):
         g = case["geno"]
         return {
             "nodes": min(sh.n, 20) if sh.n < 20 else "20+",
+            "id_order": ("no-edges" if all(p < 0 for p in parent) else
+                         "children-first" if all(p < 0 or p > u for u, p in enumerate(parent)) else
+                         "ancestors-first" if all(p < 0 or p < u for u, p in enumerate(parent)) else "mixed"),
+            "samples_first": sh.samples == list(range(len(sh.samples))),
             "n_mut": len(obs["res"].get("muts", [])) if "muts" in obs["res"] else obs["res"]["exc"],
             "anc": "free" if case["anc"] is None else case["anc"][0],
             "names": "al" if case.get("names") is None else ("digits" if all(x.isdigit() for x in case["names"]) else "mixed"),
@@ -1192,7 +1196,89 @@ class Malformed(Family):
         return {"outcome": obs["res"].get("exc", "ok")}
 
 
-FAMILIES = [Single, Exhaustive, Random, RootThreshold, Boundary, Wide, Reuse, Malformed]
+# ----------------------------------------------------------------------------
+# node ids independent of time order
+# ----------------------------------------------------------------------------
+
+def _perm(rng, n):
+    """old id -> new id: identity, fully reversed ('ancestors first'), or random"""
+    r = rng.random()
+    if r < 0.35 or n < 2:
+        return None
+    if r < 0.6:
+        return [n - 1 - u for u in range(n)]
+    p = list(range(n))
+    rng.shuffle(p)
+    return p
+
+
+def _permute_geno(geno, old_samples, pi):
+    """genotypes are indexed by sample rank (samples in increasing node id)"""
+    if len(geno) != len(old_samples):
+        return geno                    # malformed length: leave as it is
+    order = sorted(range(len(old_samples)), key=lambda j: pi[old_samples[j]])
+    return [geno[j] for j in order]
+
+
+def renumber(rng, case):
+    """tskit puts no constraint on node ids: renumber the nodes of a generated case (children
+    before parents, the enumeration order of all generators here) by a permutation, so that
+    parents with smaller ids than their children, mixed orders and samples that are not the
+    first nodes all occur.  The tree, the observations per node and the oracle are unchanged."""
+    if case.get("big"):
+        return case
+    if "desc" in case:
+        d = case["desc"]
+        n = len(d["nodes"])
+        pi = _perm(rng, n)
+        if pi is None:
+            return case
+        old_samples = [u for u in range(n) if d["nodes"][u][0] & 1]
+        nodes = [None] * n
+        for u in range(n):
+            nodes[pi[u]] = d["nodes"][u]
+        d2 = dict(d)
+        d2["nodes"] = nodes
+        d2["edges"] = [[l, r, pi[p], pi[c], m] for l, r, p, c, m in d["edges"]]
+        d2["mutations"] = [[s_, pi[u], ds, par, t, m] for s_, u, ds, par, t, m in d["mutations"]]
+        d2["migrations"] = [[l, r, pi[u], a, b, t, m] for l, r, u, a, b, t, m in d["migrations"]]
+        c = dict(case)
+        c["desc"] = d2
+        c["geno"] = _permute_geno(case["geno"], old_samples, pi)
+        return c
+    if "parent" not in case:
+        return case
+    parent, flags = case["parent"], case["flags"]
+    n = len(parent)
+    pi = _perm(rng, n)
+    if pi is None:
+        return case
+    old_samples = [u for u in range(n) if flags[u] & 1]
+    p2, f2 = [NULL] * n, [0] * n
+    for u in range(n):
+        p2[pi[u]] = NULL if parent[u] == NULL else pi[parent[u]]
+        f2[pi[u]] = flags[u]
+    c = dict(case)
+    c["parent"], c["flags"] = p2, f2
+    if "geno" in case:
+        c["geno"] = _permute_geno(case["geno"], old_samples, pi)
+    if "calls" in case:
+        c["calls"] = [dict(call, geno=_permute_geno(call["geno"], old_samples, pi)) for call in case["calls"]]
+    return c
+
+
+def _with_renumbering(cls):
+    inner = cls.generate
+
+    def generate(self, rng, tier):
+        for case in inner(self, rng, tier):
+            yield renumber(rng, case)
+    cls.generate = generate
+    return cls
+
+
+FAMILIES = [_with_renumbering(f) for f in
+            (Single, Exhaustive, Random, RootThreshold, Boundary, Wide, Reuse, Malformed)]
 NOT_COVERED = [
     "cost_matrix argument of tsk_tree_map_mutations (unused by the code)",
     "genotypes given as non-integer arrays (TypeError paths of safe_np_int_cast)",
